@@ -972,13 +972,21 @@ func summarise(stderr string) []string {
 	return out
 }
 
-func supervise(casesPath, outPath string, n int) {
+func tail(s string, n int) string {
+	if len(s) > n {
+		return s[len(s)-n:]
+	}
+	return s
+}
+
+func supervise(casesPath, outPath string, n int, stall int) {
 	self, err := os.Executable()
 	if err != nil {
 		fatal(3, "%v", err)
 	}
 	from := 0
 	deadlocks := 0
+	watchdogs := 0
 	for from < n {
 		cmd := exec.Command(self, "-mode", "child", "-cases", casesPath, "-out", outPath, "-from", strconv.Itoa(from))
 		cmd.Env = append(os.Environ(), "GOTRACEBACK=all")
@@ -1018,17 +1026,24 @@ func supervise(casesPath, outPath string, n int) {
 			case werr = <-waitCh:
 				break wait
 			case <-time.After(2 * time.Second):
-				if time.Since(time.Unix(0, progress.Load())) > 240*time.Second {
+				if time.Since(time.Unix(0, progress.Load())) > time.Duration(stall)*time.Second {
 					cmd.Process.Kill()
 					killed = true
 				}
 			}
 		}
 		if killed {
-			io.WriteString(os.Stderr, stderr.String())
-			fatal(3, "watchdog: no progress in case index %d for 240 s (not a verdict)", last.Load()+1)
+			// not a verdict: the case is marked and the batch goes on (twice at most)
+			emit(rec{"e": "end", "why": "watchdog", "stderr": tail(stderr.String(), 1500)})
+			watchdogs++
+			from = int(last.Load()) + 1
+			if watchdogs >= 2 {
+				break
+			}
+			continue
 		}
 		if werr == nil {
+			from = n
 			break
 		}
 		se := stderr.String()
@@ -1042,7 +1057,7 @@ func supervise(casesPath, outPath string, n int) {
 		io.WriteString(os.Stderr, se)
 		fatal(3, "child failed in case index %d: %v", last.Load(), werr)
 	}
-	fmt.Printf("cases=%d deadlocks=%d\n", n, deadlocks)
+	fmt.Printf("cases=%d executed=%d deadlocks=%d watchdogs=%d\n", n, from, deadlocks, watchdogs)
 }
 
 func main() {
@@ -1050,6 +1065,7 @@ func main() {
 	casesF := flag.String("cases", "cases.ndjson", "")
 	outF := flag.String("out", "trace.ndjson", "")
 	from := flag.Int("from", 0, "")
+	stall := flag.Int("stall", 240, "seconds without progress after which a child is given up (never a verdict)")
 	flag.Parse()
 	var err error
 	outFh, err = os.OpenFile(*outF, os.O_APPEND|os.O_CREATE|os.O_WRONLY, 0644)
@@ -1059,7 +1075,7 @@ func main() {
 	cases := readCases(*casesF)
 	switch *mode {
 	case "sup":
-		supervise(*casesF, *outF, len(cases))
+		supervise(*casesF, *outF, len(cases), *stall)
 	case "child":
 		log.SetOutput(io.Discard)
 		for i := *from; i < len(cases); i++ {
